@@ -293,6 +293,11 @@ PLANS["C02"] = {
         # every single-leaf criterion on x with a sort on x, either direction, every window
         EDG("edges-single-sorted", ["InvC02"], ops=["Derived"], rich_states=150, states=(5, 60), reads=(0, 0), seed_off=25,
             event_re=SINGLE_SORT_RE),
+        # the same family on one (thorough: four) content-rich state, 32 times: collection names 0..15 bytes longer (keys,
+        # and the buffers they are built in, of every length modulo an allocator's size classes), the model's numbers
+        # read as 1, 2, 3 and as 0, 1, 2 (the shortest encodings)
+        EDG("edges-single-sorted-grid", ["InvC02"], ops=["Derived"], rich_states=150, states=(1, 4), reads=(0, 0), seed_off=35,
+            event_re=SINGLE_SORT_RE, copies=32),
     ],
 }
 
